@@ -76,6 +76,8 @@ def alone(binary, case, rounds=2):
 
 
 def run(ctx):
+    # packs of 32 programs under busy-waiting worker threads burn CPU on a loaded machine: give the watchdog room
+    os.environ.setdefault("SIM_CPU_LIMIT", "90")
     binary = simlib.build()
     if os.system("setarch %s -R true" % platform.machine()) != 0:
         common.log("C01: setarch -R is not usable here")
@@ -184,6 +186,7 @@ def run(ctx):
 
 
 def replay(ctx, rf):
+    os.environ.setdefault("SIM_CPU_LIMIT", "90")
     binary = simlib.build()
     case = rf["case"]["case"]
     if rf["case"].get("pack"):
